@@ -39,3 +39,30 @@ class Adam(Opt):
         self.decay = decay
         self.betas = betas
         self.eps = eps
+
+
+class Plug:
+    def __init__(self, x: int = 0):
+        self.x = x
+
+
+class Legacy(Plug):
+    """accepts arbitrary extra keyword arguments and keeps them (they travel as dict_kwargs)"""
+
+    def __init__(self, a: int = 1, **kwargs):
+        super().__init__()
+        self.a = a
+        self.extra = kwargs
+
+
+class Modern(Plug):
+    def __init__(self, b: int = 2, **kwargs):
+        super().__init__()
+        self.b = b
+        self.extra = kwargs
+
+
+class Strict(Plug):
+    def __init__(self, c: int = 3):
+        super().__init__()
+        self.c = c
